@@ -45,15 +45,16 @@ type c08Event struct {
 }
 
 type c08Prog struct {
-	Family string     `json:"family"`
-	Src    string     `json:"program"`
-	Input  []string   `json:"input,omitempty"`
-	Events []c08Event `json:"events,omitempty"`
-	Site   string     `json:"site,omitempty"` // model site, "" = oracle only
-	Case   string     `json:"case,omitempty"` // S-expression sent to the model
-	N      int        `json:"n,omitempty"`    // entries of the order-relevant Go map
-	Dep    bool       `json:"dependent_by_construction,omitempty"`
-	Fixed  bool       `json:"has_fixed_type,omitempty"`
+	Family  string     `json:"family"`
+	Src     string     `json:"program"`
+	Input   []string   `json:"input,omitempty"`
+	Events  []c08Event `json:"events,omitempty"`
+	Site    string     `json:"site,omitempty"` // model site, "" = oracle only
+	Case    string     `json:"case,omitempty"` // S-expression sent to the model
+	N       int        `json:"n,omitempty"`    // entries of the order-relevant Go map
+	Dep     bool       `json:"dependent_by_construction,omitempty"`
+	Fixed   bool       `json:"has_fixed_type,omitempty"`
+	Witness string     `json:"model_witness,omitempty"`
 }
 
 // c08Obs are the observables of one repetition.
@@ -295,6 +296,8 @@ func c08Classify(p c08Prog, variants []c08Obs) (key, detail string) {
 		return "parse-result-differs", "parse errors differ between repetitions"
 	case differ["format"]:
 		return "format-differs", "Format() output differs between repetitions"
+	case p.Site == "combine-all" || any(func(o c08Obs) bool { return strings.Contains(o.Err+o.SVG, "incompatible types") }):
+		return "parseMapLiteral-combineTypes-order", "the element type that parseMapLiteral computes for a map literal (visible through typeof, or a wrapAny internal error while parsing) depends on the order in which the value types of mapLit.Pairs reach combineTypes"
 	case any(func(o c08Obs) bool { return strings.Contains(o.Err+o.SVG, "Equals called with") }):
 		return "mapValEquals-panic-or-false", "map == map panics (internal error in Equals on an ill-typed value) or yields false depending on which key mapVal.Equals visits first"
 	case (differ["err"] || differ["svg"]) && !differ["trace"] && any(func(o c08Obs) bool {
@@ -645,7 +648,9 @@ func genMapLit(rng *rand.Rand) c08Prog {
 		}
 	}
 	b.WriteString("}\nprint m\nfor k := range m\n    print k m[k]\nend\n")
-	p := c08Prog{Family: "map-literal-effects", Src: b.String(), N: n, Dep: effects >= 2 || (effects >= 1 && panics >= 1)}
+	// order dependent by construction until /repo 7307e12 (evalMapLiteral now ranges over m.Order)
+	_, _ = effects, panics
+	p := c08Prog{Family: "map-literal-effects", Src: b.String(), N: n}
 	if n <= 6 {
 		p.Site = "evalMapLiteral"
 		p.Case = LstOf(append([]SX{Sym("evalMapLiteral")}, ents...)).String()
@@ -938,12 +943,19 @@ func genC08(rng *rand.Rand) c08Prog {
 // corpus: the Coq _refuted witnesses as programs (8 entries, so that the
 // runtime's random start makes a miss practically impossible), plus the
 // inputs of DESIGN §7 rows 6-8
+// Witness holds the Coq _refuted witness of the same shape (2-3 entries): the
+// model in force is asked whether it is order dependent on it.
 var c08Corpus = []c08Prog{
-	{Family: "corpus-validateScope", N: 8, Dep: true, Src: "a := 1\nb := 2\nc := 3\nd := 4\ne := 5\nf := 6\ng := 7\nh := 8\n"},
-	{Family: "corpus-evalMapLiteral", N: 8, Dep: true, Src: "func f:num n:num\n    print \"call\" n\n    return n\nend\nm := {a:(f 1) b:(f 2) c:(f 3) d:(f 4) e:(f 5) f:(f 6) g:(f 7) h:(f 8)}\nprint m\n"},
-	{Family: "corpus-parseFontProps", N: 7, Dep: true, Src: "font {size:\"a\" weight:\"b\" style:1 family:2 baseline:3 align:4 letterspacing:\"c\"}\n"},
-	{Family: "corpus-combineTypes", N: 8, Dep: true, Fixed: true, Src: "x := [1]\nm := {a:[2] b:x c:[\"a\"] d:[3] e:x f:[4] g:x h:[5]}\nprint m (typeof m)\n"},
-	{Family: "corpus-mapEquals", N: 8, Dep: true, Src: "x := [] * 3\nm1 := {a:x b:1 c:x d:1 e:x f:1 g:x h:1}\nm2 := {a:2 b:3 c:2 d:3 e:2 f:3 g:2 h:3}\nprint (m1 == m2)\n"},
+	{Family: "corpus-validateScope", N: 8, Dep: true, Src: "a := 1\nb := 2\nc := 3\nd := 4\ne := 5\nf := 6\ng := 7\nh := 8\n",
+		Witness: `(validateScope ("a" 1 1 false) ("b" 2 1 false))`},
+	{Family: "corpus-evalMapLiteral", N: 8, Src: "func f:num n:num\n    print \"call\" n\n    return n\nend\nm := {a:(f 1) b:(f 2) c:(f 3) d:(f 4) e:(f 5) f:(f 6) g:(f 7) h:(f 8)}\nprint m\n",
+		Witness: `(evalMapLiteral ("a" print 1) ("b" print 2))`},
+	{Family: "corpus-parseFontProps", N: 7, Dep: true, Src: "font {size:\"a\" weight:\"b\" style:1 family:2 baseline:3 align:4 letterspacing:\"c\"}\n",
+		Witness: `(fontProps ("size" s "a") ("style" n 1))`},
+	{Family: "corpus-combineTypes", N: 8, Dep: true, Fixed: true, Src: "x := [1]\nm := {a:[2] b:x c:[\"a\"] d:[3] e:x f:[4] g:x h:[5]}\nprint m (typeof m)\n",
+		Witness: `(combine-all (arr 0 num) (arr 1 num) (arr 0 str))`},
+	{Family: "corpus-mapEquals", N: 8, Dep: true, Src: "x := [] * 3\nm1 := {a:x b:1 c:x d:1 e:x f:1 g:x h:1}\nm2 := {a:2 b:3 c:2 d:3 e:2 f:3 g:2 h:3}\nprint (m1 == m2)\n",
+		Witness: `(equals ("a" () 2) ("b" 1 3))`},
 	{Family: "corpus-design-7-6", N: 2, Dep: true, Src: "a := 1\nb := 2\n"},
 	{Family: "corpus-design-7-8", N: 3, Dep: true, Src: "font {size:\"a\" weight:\"b\" style:1}\n"},
 }
@@ -1092,18 +1104,37 @@ func runC08(cfg Config, r *Result) {
 
 	// 1. the refuted witnesses and known inputs, with more repetitions
 	c08CheckBatch(cfg, r, model, c08Corpus, 24, stats)
-	for _, p := range c08Corpus[:5] {
-		found := false
+	for _, p := range c08Corpus {
+		if p.Witness == "" {
+			continue
+		}
+		varied := false
 		for _, v := range r.Violations {
 			if q, ok := v.Input.(c08Prog); ok && q.Src == p.Src {
-				found = true
+				varied = true
 			}
 		}
-		if !found {
-			r.Violate(Violation{Kind: "correspondence", Key: "model-stale:" + p.Family,
-				Detail: "the model (Props/C08.v _refuted) says this site is order dependent but 24+3 repetitions of an 8-entry witness never varied on the implementation: if the code was fixed, switch the registry entry to the _fixed model",
-				Input:  p})
+		modelDep := false
+		if ans, err := model.Ask(p.Witness); err == nil {
+			if sx, err := ParseSX(ans); err == nil {
+				set := map[string]bool{}
+				for _, x := range sx.L {
+					set[x.String()] = true
+				}
+				modelDep = len(set) > 1
+			}
 		}
+		r.Validated++
+		switch {
+		case modelDep && !varied:
+			r.Violate(Violation{Kind: "correspondence", Key: "model-stale:" + p.Family,
+				Detail: "the model in force (coq/Perm.v, *_cur) is order dependent on the _refuted witness of this site, but 24+3 repetitions of the 8-entry program of the same shape never varied on the implementation: if the code was fixed, switch the *_cur definition to the _fixed variant and the registry entry to OrderIndependent",
+				Input:  p})
+		case !modelDep && varied:
+			r.Violate(Violation{Kind: "correspondence", Key: "model-says-independent:" + p.Family,
+				Detail: "the model in force is order independent on this witness but the implementation varies", Input: p})
+		}
+		r.Dist(fmt.Sprintf("witness:%s:model-dependent=%v:impl-varied=%v", p.Family, modelDep, varied))
 	}
 
 	// 2. generated programs
